@@ -464,6 +464,14 @@ def replica_family(W):
     return res
 
 
+def hammer_family(W):
+    """Requests carrying one session cookie hammered truly in parallel (applications requests and logouts on a pending / an
+    authenticated session), with a clock that is slow to read now and then."""
+    rounds = 3000 if W.tier == "thorough" else 240
+    return [{"id": "hammer/%s" % st, "cfg": {"filters": [dict(F1, store=st)]}, "steps": [{"op": "hammer", "f": "f1", "d": rounds, "ans": dict(ANS)}], "tags": ["hammer"]}
+            for st in ("memory", "redis")]
+
+
 def decoy_family(W):
     res = []
     for st in ("memory", "redis"):
@@ -920,7 +928,7 @@ def c15(W, replay=None):
     W.build()
     scen = []
     if not replay:
-        scen = family(W, "C15") + discovery_family(W) + after_deny_family(W)
+        scen = family(W, "C15") + discovery_family(W) + after_deny_family(W) + hammer_family(W)
         if W.tier == "thorough":
             scen += random_histories(W, 500, faults=True)
     return sys_pipeline("C15", W, scen, None, ["a panic is recovered by the harness around ExtAuthZFilter.Check and logged as an event no action of the specification accepts as well-formed"],
